@@ -326,6 +326,7 @@ BTree_newBucket(BTree *self)
         C level.
     */
     result = SIZED(PyObject_CallObject(factory, NULL));
+    VERIF_OBJ_FAULT(result);
     Py_DECREF(factory);
     return result;
 }
@@ -403,6 +404,7 @@ BTree_split_root(BTree *self, int noval)
     /* Create a child BTree, and a new data vector for self. */
     VERIF_PROBE(18);
     child = BTREE(PyObject_CallObject(OBJECT(Py_TYPE(self)), NULL));
+    VERIF_OBJ_FAULT(child);
     if (!child)
         return -1;
 
@@ -482,6 +484,7 @@ BTree_grow(BTree *self, int index, int noval)
         v = d->child;
         /* Create a new object of the same type as the target value */
         e = (Sized *)PyObject_CallObject((PyObject *)Py_TYPE(v), NULL);
+        VERIF_OBJ_FAULT(e);
         if (e == NULL)
             return -1;
 
@@ -1137,6 +1140,7 @@ BTree_getstate(BTree *self)
     if (self->len)
     {
         r = PyTuple_New(self->len * 2 - 1);
+        VERIF_OBJ_FAULT(r);
         if (r == NULL)
             goto err;
 
